@@ -132,8 +132,11 @@ type BuildResult struct {
 	Output    string
 }
 
-const DefaultVersion = "dev-verif"
-const DefaultBuildInfo = "dev-verif unknown"
+// DefaultVersion: the build version the in-process command is constructed with. Not a semantic version, so the
+// version gate (C18) is skipped; a check that wants the declared version to be observable sets a semantic version
+// (its workers are processes of their own).
+var DefaultVersion = "dev-verif"
+var DefaultBuildInfo = "dev-verif unknown"
 
 // Build writes files into a fresh directory and runs `build -i f1 -i f2 ... -o out.go flags...`.
 func (w *W) Build(files []File, flags ...string) BuildResult {
